@@ -33,7 +33,7 @@ type HTTPReq struct {
 // HTTPReply scripts the daemon's behaviour for one request. The zero value
 // means "behave like a healthy daemon".
 type HTTPReply struct {
-	Kind string // "" | ipfs-error | non-json | reset | reset-mid-body | stall | progress-stall | progress-late-error | slow-progress | raw
+	Kind string // "" | ipfs-error | non-json | reset | reset-mid-body | stall | progress-stall | progress-repeat-stall | progress-late-error | slow-progress | raw
 	// Message for ipfs-error / progress-late-error
 	Message string
 	// Status for non-json / raw
@@ -55,6 +55,7 @@ type FakeIPFS struct {
 	pins   map[string]string // cid string -> recursive|direct
 	blocks map[string][]byte
 	reqs   []HTTPReq
+	gen    int // incremented by ResetLog: requests of an earlier generation have no record
 	Script func(r *HTTPReq) *HTTPReply
 	srv    *http.Server
 	ln     net.Listener
@@ -104,6 +105,7 @@ func (f *FakeIPFS) Requests() []HTTPReq {
 func (f *FakeIPFS) ResetLog() {
 	f.mu.Lock()
 	f.reqs = nil
+	f.gen++
 	f.mu.Unlock()
 }
 
@@ -158,11 +160,16 @@ func (f *FakeIPFS) serve(w http.ResponseWriter, r *http.Request) {
 	rec := HTTPReq{Seq: len(f.reqs), Method: r.Method, Path: r.URL.Path, RawQuery: r.URL.RawQuery, Body: body, Header: r.Header.Clone()}
 	f.reqs = append(f.reqs, rec)
 	idx := len(f.reqs) - 1
+	gen := f.gen
 	script := f.Script
 	f.mu.Unlock()
 	setHandled := func(s string) {
 		f.mu.Lock()
-		f.reqs[idx].Handled = s
+		// a request that outlived a Reset (a stalled one from the previous
+		// case) has no record any more
+		if gen == f.gen && idx < len(f.reqs) {
+			f.reqs[idx].Handled = s
+		}
 		f.mu.Unlock()
 	}
 	var rep *HTTPReply
@@ -278,6 +285,23 @@ func (f *FakeIPFS) serve(w http.ResponseWriter, r *http.Request) {
 			}
 		}
 		switch rep.Kind {
+		case "progress-repeat-stall":
+			// a stuck pin: the daemon keeps reporting the same number of fetched nodes
+			setHandled("pin/add progress stuck at the same value")
+			deadline := time.After(rep.Stall)
+			for {
+				fmt.Fprintf(w, "{\"Progress\":%d}\n", steps)
+				if flusher != nil {
+					flusher.Flush()
+				}
+				select {
+				case <-r.Context().Done():
+					panic(http.ErrAbortHandler)
+				case <-deadline:
+					panic(http.ErrAbortHandler)
+				case <-time.After(iv):
+				}
+			}
 		case "progress-stall":
 			setHandled("pin/add progress then stall")
 			select {
